@@ -42,7 +42,8 @@ def case_from_tlc(obj, h, g):
         files.append({"id": "f%d" % (fi + 1), "pathKind": "main", "dirs": "p", "pkg": "p", "imports": imports,
                       "unit": {"kind": "class", "name": "K%d" % (fi + 1), "tparams": "", "ext": "", "extq": "", "impls": [], "anns": [],
                                "members": members}})
-    return {"case": "tlc-" + h, "files": files, "layout": 0}
+    # one directory in five is written with CRLF line ends, one in seven without a final line break
+    return {"case": "tlc-" + h, "files": files, "layout": 0, "crlf": int(h[:2], 16) % 5 == 0, "noFinal": int(h[2:4], 16) % 7 == 0}
 
 
 def nontrivial(rec):
